@@ -1,6 +1,6 @@
 (* C06 — writes are exactly the specified reactions, addressed to the asker, unbuffered. *)
 From Coq Require Import List NArith ZArith Bool String.
-From AMS Require Import Models GatewayFacts GatewayInv GatewaySteps.
+From AMS Require Import Models Codec GatewayFacts GatewayInv GatewaySteps GatewayAddr.
 Import ListNotations.
 Local Open Scope Z_scope.
 
@@ -83,6 +83,18 @@ Proof.
   intros m s [H|H]; [apply send_unbuffered_internal|apply send_unbuffered_set]; exact H.
 Qed.
 Print Assumptions C06_send_is_write.
+
+(* "addressed to the node that asked": for EVERY line, state, oracle and fault stream, every write
+   attempted during one listen step carries a message addressed to the sender of the received
+   message, or is the version query (to the gateway, node 0) or the discover broadcast
+   (node 255, type 20) — released parked commands included *)
+Theorem C06_addressed :
+  forall bat vlt now nd line s,
+    (forall m, decode (proto_of (s_w s)) line = DecOk m -> m_node m = nd) ->
+    exists new, s_log (snd (listen_step bat vlt now line s)) = new ++ s_log s
+      /\ Forall (fun e => m_node (we_msg e) = nd \/ we_msg e = version_query_msg \/ discover_msg (we_msg e)) new.
+Proof. exact ad_listen_step. Qed.
+Print Assumptions C06_addressed.
 
 (* which internal type reaches which reaction, from the generated tables *)
 Theorem C06_tables :
